@@ -1,6 +1,8 @@
 (* C19 property theorems. This file contains only statements closed by
    [exact lemma] and Print Assumptions. *)
-From V Require Import Common.Base C18.Pieces C18.PiecesProofs C19.Metafile C19.MetafileProofs.
+From Coq Require Import String.
+From V Require Import Common.Base C18.Pieces C18.PiecesProofs C19.Metafile C19.MetafileProofs
+  C19.Json C19.JsonSpec C19.JsonProofs C19.Layout C19.LayoutProofs C19.SubstProofs C19.Doc C19.DocProofs.
 
 (* accurateFinalByteCount is the length of what substituteFinalPaths produces,
    when both obtain their paths the same way (pathOf) *)
@@ -49,3 +51,109 @@ Theorem outputs_listed_once : forall rs,
      exists pre post, rs = pre ++ (p, j) :: post /\ (forall j', In (p, j') pre -> j' = [])).
 Proof. exact outputs_listed_once_all. Qed.
 Print Assumptions outputs_listed_once.
+
+(* ---- JSON layer ---- *)
+
+(* helpers.QuoteForJSON: for every byte string (control characters, quotation
+   marks, backslashes, U+2028/9, astral characters, WTF-8 surrogates, and with
+   asciiOnly also invalid bytes, read as U+FFFD) the RFC 8259 string parser
+   reads the output back as exactly the UTF-16 units of the string, and stops
+   right after the closing quotation mark *)
+Theorem json_quote_roundtrip : forall ascii s rest,
+  bytes_ok s -> (ascii = true \/ wtf8_ok (length s) s = true) ->
+  jstring (quote_for_json ascii s ++ rest) = Some (units s, rest).
+Proof. exact json_quote_roundtrip_all. Qed.
+Print Assumptions json_quote_roundtrip.
+
+(* without asciiOnly an invalid byte is copied: the output is not UTF-8, hence not JSON text *)
+Theorem json_quote_utf8_refuted : exists s, bytes_ok s /\ jstring (quote_for_json false s) = None.
+Proof. exact json_quote_utf8_refuted_wit. Qed.
+Print Assumptions json_quote_utf8_refuted.
+
+(* every text written the way esbuild writes its JSON (Layout.lj) is accepted
+   by the RFC 8259 parser and denotes the value it was written from *)
+Theorem json_text_roundtrip : forall ascii rf rq t trailer,
+  (forall k i, rq k i = 34 :: rf k i ++ [34]) -> lj_ok ascii rf t -> all_ws trailer = true ->
+  parse_json (render ascii rq t ++ trailer) = Some (erase rf t).
+Proof. exact parse_render_all. Qed.
+Print Assumptions json_text_roundtrip.
+
+(* ---- path substitution inside the JSON pieces ---- *)
+
+(* breakOutputIntoPieces finds exactly the keys of a text in which the prefix
+   occurs nowhere else (converse of C18.pieces_lossless) *)
+Theorem clean_text_is_split_at_its_keys : forall prefix nf nc ps,
+  clean prefix nf nc ps ->
+  break_output prefix nf nc (join_with_keys prefix ps) = Some ps.
+Proof. exact (fun prefix nf nc ps H => break_clean prefix nf nc ps H _ (Nat.lt_succ_diag_r _)). Qed.
+Print Assumptions clean_text_is_split_at_its_keys.
+
+(* the JSON piece of an output after substituteFinalPaths is the same tree with
+   the final paths between the quotation marks (whatever their length); it
+   parses to the description provided the paths need no escaping *)
+Theorem substitution_keeps_wellformed : forall mini ascii prefix nf nc pathOf c,
+  forallb plain prefix = true ->
+  clean prefix nf nc (pof [] (frags ascii (chunk_lj mini c))) ->
+  lj_ok ascii pathOf (chunk_lj mini c) ->
+  chunk_final mini ascii prefix nf nc pathOf c = render ascii (rq_final pathOf) (chunk_lj mini c) /\
+  parse_json (chunk_final mini ascii prefix nf nc pathOf c) = Some (chunk_jv pathOf c).
+Proof.
+  exact (fun mini ascii prefix nf nc pathOf c Hp Hc Hok =>
+    conj (chunk_final_text mini ascii prefix nf nc pathOf c Hp Hc)
+         (chunk_final_parses mini ascii prefix nf nc pathOf c Hp Hc Hok)).
+Qed.
+Print Assumptions substitution_keeps_wellformed.
+
+(* ... and without that proviso it is false: the path is not escaped *)
+Theorem substitution_keeps_wellformed_refuted :
+  exists mini ascii prefix nf nc pathOf ins outs,
+    forallb plain prefix = true /\
+    (forall pc, In pc outs -> clean prefix nf nc (pof [] (frags ascii (chunk_lj mini (snd pc))))) /\
+    parse_json (metafile_of mini ascii prefix nf nc pathOf ins outs) = None.
+Proof. exact substitution_refuted_wit. Qed.
+Print Assumptions substitution_keeps_wellformed_refuted.
+
+(* the "bytes" member is the number handed to jsonMetadataChunkCallback *)
+Theorem bytes_is_callback_argument : forall pathOf c,
+  In (ju "bytes"%string, JNum (dec (c_bytes c))) (match chunk_jv pathOf c with JObj ms => ms | _ => [] end).
+Proof. exact bytes_member. Qed.
+Print Assumptions bytes_is_callback_argument.
+
+(* ---- the whole metafile ---- *)
+
+Theorem metafile_wellformed : forall mini ascii prefix nf nc pathOf ins outs,
+  forallb plain prefix = true ->
+  (forall pc, In pc outs -> clean prefix nf nc (pof [] (frags ascii (chunk_lj mini (snd pc))))) ->
+  lj_ok ascii pathOf (doc_lj mini ins outs) ->
+  exists v, parse_json (metafile_of mini ascii prefix nf nc pathOf ins outs) = Some v.
+Proof.
+  exact (fun mini ascii prefix nf nc pathOf ins outs Hp Hc Hok =>
+    ex_intro _ _ (metafile_faithful_all mini ascii prefix nf nc pathOf ins outs Hp Hc Hok)).
+Qed.
+Print Assumptions metafile_wellformed.
+
+(* parsing the metafile gives back the descriptions: inputs in order, every
+   output path once (first result wins), imports / exports / entryPoint /
+   cssBundle / inputs / bytes of each output as described, unique keys replaced
+   by the final paths *)
+Theorem metafile_faithful : forall mini ascii prefix nf nc pathOf ins outs,
+  forallb plain prefix = true ->
+  (forall pc, In pc outs -> clean prefix nf nc (pof [] (frags ascii (chunk_lj mini (snd pc))))) ->
+  lj_ok ascii pathOf (doc_lj mini ins outs) ->
+  parse_json (metafile_of mini ascii prefix nf nc pathOf ins outs) = Some (doc_jv pathOf ins outs)
+  /\ NoDup (map fst (dedup_first [] outs)).
+Proof.
+  exact (fun mini ascii prefix nf nc pathOf ins outs Hp Hc Hok =>
+    conj (metafile_faithful_all mini ascii prefix nf nc pathOf ins outs Hp Hc Hok) (dedup_nodup outs [])).
+Qed.
+Print Assumptions metafile_faithful.
+
+(* the path written for the unique key of chunk j (0 <= j < number of chunks:
+   C18.references_resolve) or of an asset whose additional file is among the
+   results is a key of outputs *)
+Theorem imports_resolve : forall (pathOf : Z -> Z -> bytes) (extra : list (bytes * chunk)) (chunks : list chunk) k j,
+  (k = 2 -> 0 <= j < Z.of_nat (length chunks)) ->
+  (k <> 2 -> In (pathOf k j) (map fst extra)) ->
+  In (pathOf k j) (map fst (dedup_first [] (link_results pathOf extra chunks))).
+Proof. exact (@imports_resolve_all chunk). Qed.
+Print Assumptions imports_resolve.
